@@ -498,6 +498,18 @@ func bvop(op Op, w int, a, b *Term) *Term {
 			}
 		}
 	}
+	if op == OpBvOr || op == OpBvXor {
+		// disjoint bit ranges: one operand is a multiple of 2^k and the other is below 2^k, so
+		// the operation is an addition (byte recombination: hi<<8 | lo)
+		if a.nonNeg() && b.nonNeg() {
+			if k := trailingZeros(a); k > 0 && b.Hi != nil && b.Hi.Cmp(Pow2(k)) < 0 {
+				return Add(a, b)
+			}
+			if k := trailingZeros(b); k > 0 && a.Hi != nil && a.Hi.Cmp(Pow2(k)) < 0 {
+				return Add(a, b)
+			}
+		}
+	}
 	t := mk(op, a, b)
 	t.W = w
 	t.Lo = bigZero
@@ -509,6 +521,56 @@ func bvop(op Op, w int, a, b *Term) *Term {
 		}
 	}
 	return t
+}
+
+// trailingZeros: a lower bound on the number of low zero bits of a non-negative term (structural).
+func trailingZeros(t *Term) int {
+	switch t.Op {
+	case OpConst:
+		if t.Val.Sign() == 0 {
+			return 4096
+		}
+		if t.Val.Sign() < 0 {
+			return 0
+		}
+		return int(t.Val.TrailingZeroBits())
+	case OpMul:
+		n := 0
+		for _, a := range t.Args {
+			if !a.nonNeg() {
+				return 0
+			}
+			n += trailingZeros(a)
+			if n > 4096 {
+				n = 4096
+			}
+		}
+		return n
+	case OpAdd, OpIte:
+		args := t.Args
+		if t.Op == OpIte {
+			args = t.Args[1:]
+		}
+		n := 4096
+		for _, a := range args {
+			if !a.nonNeg() {
+				return 0
+			}
+			if k := trailingZeros(a); k < n {
+				n = k
+			}
+		}
+		return n
+	case OpMod:
+		if t.Args[1].Op == OpConst && t.Args[1].Val.Sign() > 0 && new(big.Int).And(t.Args[1].Val, new(big.Int).Sub(t.Args[1].Val, bigOne)).Sign() == 0 && t.Args[0].nonNeg() {
+			k := trailingZeros(t.Args[0])
+			if m := t.Args[1].Val.BitLen() - 1; k > m {
+				k = m
+			}
+			return k
+		}
+	}
+	return 0
 }
 
 // UF application (used only through Ackermann-free path; rarely)
